@@ -72,6 +72,9 @@ func (e *Exec) VerifyFunc(fn *ssa.Function, ct *Contract, setup func(st *State, 
 			for _, en := range ct.Ensures {
 				e.Assert(fmt.Sprintf("%s/post[%s]", name, en.Label), "post", fn.String(), st, e.evalBool(en.Expr, penv), en.Expr)
 			}
+			if ct.Pure {
+				e.assertPureFrame(name, fn, st, entry, water0)
+			}
 			if e.RetHook != nil {
 				e.RetHook(e, st, nil, res)
 			}
@@ -79,6 +82,9 @@ func (e *Exec) VerifyFunc(fn *ssa.Function, ct *Contract, setup func(st *State, 
 		func(st *State, pv *Term) {
 			if mode == "nopanic" {
 				e.AddVC(name+"/safe:panic-escapes", "safe", fn.String(), st, True, "an explicit panic escapes the function")
+			}
+			if ct.Pure {
+				e.assertPureFrame(name, fn, st, entry, water0)
 			}
 		})
 	e.SafeMode = saved
@@ -94,3 +100,34 @@ var shortNameMemo = map[*ssa.Function]string{}
 func shortNameCached(f *ssa.Function) string { return shortName(f) }
 
 var traceOn = os.Getenv("VERIF_TRACE") != ""
+
+// assertPureFrame: a function declared pure leaves every memory cell of every
+// object that existed at entry unchanged (it may allocate and fill fresh objects).
+func (e *Exec) assertPureFrame(name string, fn *ssa.Function, st, entry *State, water0 *Term) {
+	var keys []string
+	for k := range st.mem {
+		keys = append(keys, k)
+	}
+	sortStrings(keys)
+	var fs []*Term
+	for _, k := range keys {
+		old, ok := entry.mem[k]
+		if !ok {
+			// memory of this sort was first touched after entry: its initial
+			// array is the entry memory only if no unframed havoc came first
+			old = baseArray(st.mem[k])
+			for len(st.qf[old]) > 0 && len(st.qf[old]) == 2 && st.qf[old][1].rhs.Op == "select" {
+				old = baseArray(st.qf[old][1].rhs.Args[0]) // through allocation arrays
+			}
+			if !(stringsHasPrefix(old.Leaf, "M0_") || stringsHasPrefix(old.Leaf, "MH0_") || stringsHasPrefix(old.Leaf, "MV0_")) {
+				fs = append(fs, False)
+				continue
+			}
+		}
+		if old == st.mem[k] {
+			continue
+		}
+		fs = append(fs, frameFormula(old, st.mem[k], nil, nil, water0))
+	}
+	e.Assert(name+"/frame:pure", "frame", fn.String(), st, And(fs...), "declared pure: no cell of a pre-existing object is written")
+}
